@@ -55,8 +55,12 @@ func c04Key(p *route.Path) string {
 			}
 			as = sb.String()
 		}
-		return fmt.Sprintf("bgp src=%s id=%d nh=%s lp=%d med=%d org=%d ebgp=%v as=%s/%d",
-			a.Source.String(), b.PathIdentifier, a.NextHop.String(), a.LocalPref, a.MED, a.Origin, a.EBGP, as, b.ASPathLen)
+		comm := ""
+		if b.Communities != nil {
+			comm = fmt.Sprintf(" comm=%v", []uint32(*b.Communities))
+		}
+		return fmt.Sprintf("bgp src=%s id=%d nh=%s lp=%d med=%d org=%d ebgp=%v as=%s/%d%s",
+			a.Source.String(), b.PathIdentifier, a.NextHop.String(), a.LocalPref, a.MED, a.Origin, a.EBGP, as, b.ASPathLen, comm)
 	}
 	return fmt.Sprintf("type%d", p.Type)
 }
@@ -265,7 +269,33 @@ func c04GenPool(t *rapid.T, static bool) []*route.Path {
 			},
 		}
 	}
+	// twins: pool[i] (i >= 4) may be the same announcement as pool[i-4] after a different import policy: equal in
+	// everything path selection looks at (and in source and path id), different only in its communities. An
+	// Adj-RIB-In never holds both for one prefix, but it replaces one by the other (ReplacePath) when its import
+	// policy is replaced.
+	for i := 4; i < len(pool); i++ {
+		if rapid.Bool().Draw(t, fmt.Sprintf("p%d_twin", i)) {
+			tw := pool[i-4].Copy()
+			comm := types.Communities{uint32(65000<<16 | i)}
+			tw.BGPPath.Communities = &comm
+			pool[i] = tw
+		}
+	}
 	return pool
+}
+
+// c04Twin returns the pool index of j's twin (same source and path id, selection-equal), or -1.
+func c04Twin(pool []*route.Path, j int) int {
+	for k := range pool {
+		if k == j || pool[k].Type != route.BGPPathType || pool[j].Type != route.BGPPathType {
+			continue
+		}
+		a, b := pool[k].BGPPath, pool[j].BGPPath
+		if a.PathIdentifier == b.PathIdentifier && a.BGPPathA.Source.Compare(b.BGPPathA.Source) == 0 {
+			return k
+		}
+	}
+	return -1
 }
 
 // expected view of a client for prefix i: first n paths of the current selection.
@@ -434,6 +464,9 @@ func (s *c04State) actions() map[string]func(*rapid.T) {
 			t.Skip("all pool paths stored")
 		}
 		j := rapid.SampledFrom(free).Draw(t, "path")
+		if tw := c04Twin(s.pool, j); tw >= 0 && s.stored[i][tw] {
+			t.Skip("the same announcement is already stored in another form")
+		}
 		initial := rapid.IntRange(0, 7).Draw(t, "initial") == 0
 		cas.Logf("AddPath %s pool[%d] initialdump=%v", s.pfxs[i], j, initial)
 		if initial {
@@ -491,7 +524,9 @@ func (s *c04State) actions() map[string]func(*rapid.T) {
 			// an old path that is not stored (and different from the new one)
 			var cand []int
 			for _, k := range free {
-				if k != nw {
+				// (an absent path whose twin is stored is no "absent" path for an Adj-RIB-In: it holds one form of
+				// an announcement and names exactly that form when it replaces it)
+				if tw := c04Twin(s.pool, k); k != nw && !(tw >= 0 && s.stored[i][tw]) {
 					cand = append(cand, k)
 				}
 			}
@@ -500,7 +535,11 @@ func (s *c04State) actions() map[string]func(*rapid.T) {
 			}
 			old = rapid.SampledFrom(cand).Draw(t, "old_absent")
 		}
+		if tw := c04Twin(s.pool, nw); tw >= 0 && tw != old && s.stored[i][tw] {
+			t.Skip("the new path's twin is stored")
+		}
 		hit := s.stored[i][old]
+		cas.ClassIf(hit && c04Twin(s.pool, nw) == old, "replace_by_selection_equal_twin")
 		cas.Logf("ReplacePath %s pool[%d] -> pool[%d] oldpresent=%v", s.pfxs[i], old, nw, hit)
 		cas.ClassIf(hit, "replace_hit")
 		cas.ClassIf(!hit, "replace_miss")
